@@ -332,8 +332,8 @@ static std::vector<double> make_stream(vh::Rng& r, int nsamples, int width) {
     //level changes exercise attack/release/hold and the gate counters
     double level = 1.0;
     for (int i = 0; i < nsamples; ++i) {
-        if (r.below(37) == 0) {
-            level = std::pow(10.0, r.uni(-3.0, 0.5));
+        if (r.below(13) == 0) {
+            level = std::pow(10.0, r.uni(-3.0, 0.5));   //frequent level changes: gates open/close, hold counters run, knees are crossed
         }
         for (int k = 0; k < width; ++k) {
             s[size_t(i) * width + k] = r.gauss() * level;
